@@ -715,12 +715,16 @@ def _translate_applied(repo, rep):
               "of the element-level Translate node",
               construct="translate-site", where=L.where(f))
     for c in sites:
-        gs = [(src(t), v) for t, v in L.guards_of(c, f.node)
+        gs = [(L.inlined_text(f.node, t), v)
+              for t, v in L.guards_of(c, f.node)
               if not isinstance(t, ast.ExceptHandler)]
         # (the macro-use branch builds no element at all)
-        gs = [g for g in gs if not (L.cond_holds(
-            [g], "use_macro or extend_macro", False))]
-        ok = len(gs) == 1 and L.cond_holds(gs, "dynamic", False)
+        gs = [g for g in gs if not L.cond_holds(
+            [g], L.inlined_text(f.node, "use_macro or extend_macro"), False)]
+        ok = len(gs) == 1 and L.cond_holds(
+            gs, L.inlined_text(
+                f.node, "ns.get((TAL, 'content')) or "
+                "ns.get((TAL, 'replace'))"), False)
         rep.check(ok, "R10.1", f.qualname, "the Translate wrapper is applied "
                   "under exactly one condition: no tal:content / tal:replace "
                   "on the element", construct="translate-applied",
